@@ -236,7 +236,14 @@ def run_loops(ctx: Ctx):
         strong = n % 3 == 2      # a third of the loops are NOT contractions (two members, coupling gains up to 1.5, product up to 2.25 in
         if strong:               # magnitude): the accelerated iteration still solves these (300 of 300 on the unchanged tree, error 1e-12)
             size = 2
-        system, spec = systems.random_loop_system(rng, size=size, name=f'c04l{n}', extra=False, downstream=True, gain_scale=(6 if strong else 1))
+        # every third loop: one member also returns a coupling variable that does not depend on the loop state (settled after one sweep)
+        side = None
+        if n % 3 == 1:
+            # read by the first listed member in one half of these loops and by the last listed one in the other (the variable then is the
+            # last / among the first of the loop's coupling variables, in whichever order the code walks them)
+            c_ = 0 if n % 6 == 1 else size - 1
+            p_ = (c_ + 1) % size; side = (p_, c_, Fraction(rng.choice([-1, 1, 2]), 4))
+        system, spec = systems.random_loop_system(rng, size=size, name=f'c04l{n}', extra=False, downstream=True, gain_scale=(6 if strong else 1), side=side)
         guess = rng.choice(['declared', 'narrow', 'offset'])
         for i in range(size):
             v = system.outputs()[f'u{i}']
@@ -246,7 +253,7 @@ def run_loops(ctx: Ctx):
                 v.domain = (3.0, 4.0)
         np.random.seed(ctx.seed * 29 + n)
         ub = rng.random() < 0.8
-        case = {'loop': n, 'size': size, 'A': [[str(t) for t in r] for r in spec['A']], 'initial_guess': guess, 'update_bounds': ub, 'non_contractive': strong}
+        case = {'loop': n, 'size': size, 'A': [[str(t) for t in r] for r in spec['A']], 'initial_guess': guess, 'update_bounds': ub, 'non_contractive': strong, 'state_independent_coupling_variable': [str(t) for t in side] if side else None}
         ctx.case(case, nontrivial=True, kind=f'loop:{guess}')
         try:
             system.fit(max_iter=10 ** 3, num_refine=30, max_tol=-1.0, update_bounds=ub)
